@@ -16,8 +16,8 @@ import numpy as np
 from harness import common
 from harness.common import dylit, dylist, dymat, zlit, zlist, blit
 
-HEADER = ("From Precond Require Import Base.PyLib Base.QMat C06.Records C06.Ref C09.Check C01.Check "
-          "C02.Model C02.Check.\nOpen Scope Q_scope.\n")
+HEADER = ("From Precond Require Import Base.PyLib Base.QMat Base.PyFloat C06.Records C06.Ref C09.Check "
+          "C01.Check C02.Records C02.Ref C02.Model C02.Check.\nOpen Scope Q_scope.\n")
 TOL = "(1 # 131072)"          # 2^-17 (float32 arithmetic in the implementation)
 U64 = 2.0 ** -53
 U32 = 2.0 ** -24
@@ -58,8 +58,8 @@ def zl(xs):
 
 def leaf_term(case, st, lf):
   b, a = lf["before"], lf["after"]
-  return "chk_leaf %s %s (%d)%%Z %s %s %s %s (mkps %s %s %s) %s %s (mkps %s %s %s) %s" % (
-      TOL, cfg_term(case, st["lr"]), st["count_before"], zl(lf["shape"]), dv(lf["param"]),
+  return "chk_leaf %s %s %s (%d)%%Z %s %s %s %s (mkps %s %s %s) %s %s (mkps %s %s %s) %s" % (
+      TOL, q(1e-25), cfg_term(case, st["lr"]), st["count_before"], zl(lf["shape"]), dv(lf["param"]),
       dv(lf["grad"]), mats(b["stats"]), dv(b["diag"]), dv(b["dmom"]), dv(b["mom"]),
       mats(a["stats"]), mats(a["preconds"]), dv(a["diag"]), dv(a["dmom"]), dv(a["mom"]),
       dv(lf["update"]))
@@ -244,6 +244,33 @@ def report(ctx, results, verdicts):
             theorem_or_check="C01.Check.root_cert on the optimizer's stored state"))
 
 
+def translator_obligation(ctx):
+  """Regenerate the Gallina translation of _transform_grad from /repo and re-prove it equal to the
+  reference C02.Ref.transform_grad the theorems and the per-step check use."""
+  from tools import targets
+  text, errors = targets.generate_c02(common.REPO)
+  ctx.cov["obligations"] += 2
+  if errors:
+    ctx.proof_failure("translate _transform_grad", json.dumps(errors))
+    return
+  text = text.replace("C02.Records.", "C02.Records.")
+  ok, out = ctx.gen_obligation("Gen", text)
+  if not ok:
+    ctx.proof_failure("compile gen/C02/Gen.v (translation of _transform_grad)", out[-2000:])
+    return
+  ctx.cov["discharged"] += 1
+  names = " ".join(n for n, _ in targets.TG_PARAMS)
+  ob = ("From Precond Require Import Base.PyLib Base.QMat Base.PyFloat C02.Records.\n"
+        "From Precond Require C02.Ref.\nFrom PrecondGen Require C02.Gen.\n"
+        "Lemma gen_eq_transform_grad : forall %s, C02.Gen.transform_grad %s = C02.Ref.transform_grad %s.\n"
+        "Proof. intros. reflexivity. Qed.\n" % (names, names, names))
+  ok, out = ctx.gen_obligation("GenEq_transform_grad", ob)
+  if ok:
+    ctx.cov["discharged"] += 1
+  else:
+    ctx.proof_failure("GenEq_transform_grad (Gen.transform_grad = Ref.transform_grad)", out[-2000:])
+
+
 def run(ctx):
   ctx.cov["rule"] = (
       "random configurations over graft type (7) x beta1 x beta2 (incl. 1) x nesterov x moving "
@@ -259,6 +286,7 @@ def run(ctx):
       "float32 rounding of the implementation absorbed by the relative tolerance 2^-17",
       "quantized / pmap / sharded modes are not exercised here (C11, C13, C03 cover their plumbing)"]
   ctx.proofs(["Properties/C02.v"], extra_targets=["theories/C02/Check.vo"], dirs=["C06", "C09", "C01"])
+  translator_obligation(ctx)
   cases = gen_cases(ctx)
   ctx.log("%d configurations" % len(cases))
   results = run_impl(cases)
